@@ -31,7 +31,7 @@ Proof. repeat split. intros i saved. discriminate. Qed.
 
 Lemma inv_step s bs o : Inv s bs -> Inv (step s o) (ref_step bs o).
 Proof.
-  intros (HF & HC & HE & HP). destruct o as [b| | |i|i ex|i|i]; cbn [step ref_step].
+  intros (HF & HC & HE & HP). destruct o as [b| | |i|i ex|i|i|r]; cbn [step ref_step].
   - (* enter *) repeat split; cbn.
     + exact HC.
     + exact HF.
@@ -70,6 +70,7 @@ Proof.
     + destruct holds; [exfalso; exact (HP i saved EI)|]. cbn [finish]. repeat split; cbn; auto. apply no_pending_aset; [exact HP | discriminate].
     + repeat split; auto.
     + repeat split; auto.
+  - (* the *) repeat split; auto.
 Qed.
 
 Lemma inv_run ops : forall s bs, Inv s bs -> Inv (fold_left step ops s) (fold_left ref_step ops bs).
